@@ -41,6 +41,16 @@ CLAIMED = {
     text="Guppy-mode symbolic execution of every Stack and PriorityQueue method for an arbitrary capacity < 2^62 and an arbitrary well-formed state: Stack operations against the list view (push/pop/peek/len/next/empty, exact panic conditions, prefix unchanged); PriorityQueue push/pop/peek/next/empty preserve wf + heap order, pop/peek return the root, the ghost multiset of entries changes by exactly the pushed/popped entry, no spurious panic; sift-up and sift-down loops are cut at inductive invariants (heap-except-at-i with grandparent clause; hole-at-i). Root minimality from heap order: induction step discharged by z3. 133 obligations incl. an in-range obligation for every arithmetic result.",
     note="array/Option cell primitives and the bag point-update law are assumed (guppycoll.py); ints are mathematical with explicit no-overflow obligations (relies on C04 for + - * // comparisons inside int64); induction schema for root minimality applied on paper. After a code change, obligations the solver leaves open are handed to a bounded model-level counterexample finder (C27_harness.py) that only supplies failing inputs.",
     technique="deductive: loop-invariant VCs generated from the real collection bodies (Guppy mode, mathematical ints + overflow obligations), z3 with quantifiers over array indices"),
+ "C23": dict(
+    category="proof", design_ref="DESIGN.md §6 C23",
+    text="The real mock_builtins generator is executed through the `with` protocol (inline expansion at its yield) for all 8 combinations of user bindings of float/int/len, with a body that may raise, also one level nested: on both exits the dictionary has exactly its initial keys and the identical value objects, the mocks are visible inside, and the exception propagates; plus structural obligations: every call of the user's function in trace_function sits inside `with mock_builtins(python_func)`, and nothing else in the tracing package touches __globals__.",
+    note="body assumed not to rebind the user's globals itself; deeper nesting by induction with this contract as hypothesis; pyvc's model of with/@contextmanager/try-finally is trusted.",
+    technique="deductive: exhaustive path-wise symbolic execution of the real context manager over the complete 8x2x2 case split + AST containment obligations"),
+ "C28": dict(
+    category="proof", design_ref="DESIGN.md §6 C28",
+    text="Every with_*/..._sim derivation of EmulatorInstance (and the replace-based ones of EmulatorBuilder) is executed on a concrete object graph with symbolic leaves and real aliasing: the result is a new instance differing from old(self) only in the named option; a heap snapshot proves that no field of any object reachable from self changes (modifies-nothing), *_sim create a simulator object that did not exist before and is not shared between two derivations; _run_instance passes every option to the keyword of the same meaning. with_seed's write to the shared simulator is the known finding; all its other frame clauses are proved.",
+    note="selene constructors modelled as fresh-record constructors; reproducibility of run() follows from the frames plus the assumed functional behaviour of selene's run_shots.",
+    technique="deductive: symbolic execution with an explicit heap (object identity, snapshot frames) of the real methods; z3 for leaf equalities"),
 }
 
 NOT_APPLICABLE = {
